@@ -15,15 +15,16 @@ import (
 )
 
 type oracleInfo struct {
-	corpus   proto.Corpus
-	expected proto.Expected
-	batch    int // calls executed in batch passes
-	iso      int // calls executed alone in a fresh process
-	dropped  int // calls dropped for exceeding the step bound
-	excluded map[int]string
-	soak     int // calls made in the one long-lived soak process
-	siteBits []uint8
-	viol     *proto.Record
+	corpus    proto.Corpus
+	expected  proto.Expected
+	batch     int // calls executed in batch passes
+	iso       int // calls executed alone in a fresh process
+	dropped   int // calls dropped for exceeding the step bound
+	excluded  map[int]string
+	soak      int // calls made in the one long-lived soak process
+	siteBits  []uint8
+	unmanaged int // goroutines the library started outside of calls (package init)
+	viol      *proto.Record
 }
 
 var degradedMode bool
@@ -129,6 +130,16 @@ func buildOracle(b builds, cfg tierCfg) oracleInfo {
 		fatal("%v", err)
 	}
 	n := len(oi.corpus.Calls)
+	if !degradedMode {
+		// probe: does the library start goroutines outside of calls (package init)? They
+		// cannot be simulated tasks, and would run simulator wrappers as if they were the
+		// current task: everything, including the instrumented pass, must then run free
+		probe := oracleRun(b.plain, cfg.procWall, corpusPath, "canonical", []int{0})
+		if probe.Unmanaged > 0 {
+			degradedMode = true
+			oi.unmanaged = probe.Unmanaged
+		}
+	}
 	callStr := func(id int) string {
 		c := oi.corpus.Calls[id]
 		return fmt.Sprintf("%s(%q, %q)", c.Fn, c.Expr, c.List)
@@ -617,6 +628,12 @@ func doCheck(b builds, cfg tierCfg) int {
 	oi := buildOracle(b, cfg)
 	logf("sequential reference: %d calls, %d executed in batch passes (canonical, reverse, shuffled x2, soak %d in one process), %d alone in a fresh process, %d over the step bound",
 		len(oi.corpus.Calls), oi.batch, oi.soak, oi.iso, oi.dropped)
+	if oi.unmanaged > 0 && !degraded {
+		degraded = true
+		degradedMode = true
+		b.rep.Unmodelled = append(b.rep.Unmodelled, []byte(fmt.Sprintf(`{"what":"%d goroutine(s) started by the library outside of any call (package initialisation): not under the simulator's control","pos":"runtime observation"}`, oi.unmanaged)))
+		logf("the library starts goroutines during package initialisation -> DEGRADED mode")
+	}
 	var agg *simAgg
 	var viol *proto.Record
 	if oi.viol != nil {
